@@ -40,12 +40,14 @@ package comdoc
 //@   ensures @existing_short_cells_keep_their_value short ==> forall(j, 0, old(len(r.SSAT)), r.SSAT[j] == old(r.SSAT[j]))
 //@   ensures @existing_cells_keep_their_value !short ==> forall(j, 0, old(len(r.SAT)), r.SAT[j] == old(r.SAT[j]))
 //@   ensures @tables_stay_separate old(!samearr(r.SAT, r.SSAT)) ==> !samearr(r.SAT, r.SSAT)
+//@   ensures @tables_grow_in_place_or_into_new_memory (samearr(r.SAT, old(r.SAT)) || freshsince(r.SAT)) && (samearr(r.SSAT, old(r.SSAT)) || freshsince(r.SSAT))
 //@   ensures @free_list_is_a_separate_array len(ret0) > 0 ==> !samearr(ret0, r.SAT) && !samearr(ret0, r.SSAT)
 //@   ensures @other_table_untouched (short ==> sameslice(r.SAT, old(r.SAT))) && (!short ==> sameslice(r.SSAT, old(r.SSAT)))
 //@
 //@ func (*ComDoc).sectorToOffset
 //@   property C18 C03
 //@   modifies nothing
+//@   ensures @sector_n_starts_n_sectors_behind_the_header (sector < 0 ==> ret0 == -1) && (sector >= 0 ==> ret0 == wrap64(r.FirstSector + mulwrap64(sector * r.SectorSize)))
 //@
 //@ func (*ComDoc).writeSector
 //@   property C18 C03
@@ -54,6 +56,7 @@ package comdoc
 //@ func (*ComDoc).addStream
 //@   property C18 C11
 //@   nopanic implicit
+//@   modifies r.SAT, r.SSAT, mem(r.SAT), mem(r.SSAT), mem(r.sectorBuf), mem(r.Files)
 //@   requires (r.SectorSize == 512 || r.SectorSize == 4096) && r.ShortSectorSize >= 1 && r.ShortSectorSize <= r.SectorSize && len(contents) <= 1073741824
 //@   requires len(r.SAT) <= 1073741824 && len(r.SSAT) <= 1073741824 && !samearr(r.SAT, r.SSAT)
 //@   loop 0 sig "for _, i := range freeList" invariant -1 <= rangeindex && rangeindex < len(freeList) && len(contents) >= 0 && (rangeindex == -1 ==> previous == -2 && first == -2) && \
@@ -61,6 +64,7 @@ package comdoc
 //@        (rangeindex >= 0 ==> previous == freeList[rangeindex] && first == freeList[0]) && \
 //@        forall(k, 0, len(freeList), 0 <= freeList[k] && freeList[k] < len(sat)) && forall(a, 0, len(freeList), forall(b, a + 1, len(freeList), freeList[a] < freeList[b])) && \
 //@        (len(freeList) > 0 ==> !samearr(freeList, r.SAT) && !samearr(freeList, r.SSAT))
+//@   loop 0 invariant @tables_in_place_or_new (samearr(r.SAT, old(r.SAT)) || freshsince(r.SAT)) && (samearr(r.SSAT, old(r.SSAT)) || freshsince(r.SSAT))
 //@   loop 0 invariant @chain_links_so_far forall(k, 0, rangeindex, sat[freeList[k]] == freeList[k+1])
 //@   ensures @first_sector_of_the_new_chain ret1 == nil && len(contents) > 0 ==> ret0 >= 0 && (short ==> ret0 < len(r.SSAT)) && (!short ==> ret0 < len(r.SAT))
 //@   ensures @empty_stream_has_no_sectors ret1 == nil && len(contents) == 0 ==> ret0 == -2
@@ -76,8 +80,12 @@ package comdoc
 //@   property C18 C03
 //@   standalone
 //@   requires (r.SectorSize == 512 || r.SectorSize == 4096) && r.ShortSectorSize >= 1 && r.ShortSectorSize <= r.SectorSize && len(contents) <= 1073741824
-//@   requires len(r.SAT) <= 1073741824 && len(r.SSAT) <= 1073741824 && !samearr(r.SAT, r.SSAT)
+//@   requires len(r.SAT) <= 1073741824 && len(r.SSAT) <= 1073741824 && !samearr(r.SAT, r.SSAT) && len(r.Files) <= 1073741824
 //@   ghost deleted bool = false
+//@   ghost de *DirEnt = nil
+//@   on call (*ComDoc).newDirEnt(_, _, _, _) ret (d, e): de = d
+//@   ensures @new_stream_is_the_last_root_entry_with_the_name_and_size_given ret0 == nil ==> de != nil && len(r.rootFiles) >= 1 && r.rootFiles[len(r.rootFiles)-1] == de.Index && \
+//@        0 <= de.Index && de.Index < len(r.Files) && de == addr(r.Files[de.Index]) && de.name == name && de.StreamSize == len(contents) && de.Type == DirStream && r.changed
 //@   on call (*ComDoc).DeleteFile(_, n) ret (e): deleted = (e == nil && n == name)
 //@   before call (*ComDoc).addStream(_, c, sh): assert @same_cutoff_as_the_reader_and_old_stream_removed_first deleted && sameslice(c, contents) && sh == (len(contents) < r.Header.MinStdStreamSize)
 //@   before call (*ComDoc).newDirEnt(_, n, sz, first): assert @directory_entry_describes_the_stored_stream n == name && sz == len(contents)
@@ -85,6 +93,7 @@ package comdoc
 //@ func (*ComDoc).allocSectorTables
 //@   property C18 C03
 //@   requires r.SectorSize == 512 || r.SectorSize == 4096
+//@   ensures @geometry_untouched r.SectorSize == old(r.SectorSize) && r.Header == old(r.Header) && r.writer == old(r.writer)
 //@   ensures @every_allocation_table_sector_is_listed (r.SectorSize == 512 ==> len(r.SAT) / 128 <= len(r.MSAT)) && (r.SectorSize == 4096 ==> len(r.SAT) / 1024 <= len(r.MSAT))
 //@   ensures @listed_sectors_fit_the_header_and_the_msat_sectors (r.SectorSize == 512 ==> len(r.MSAT) <= 109 + len(r.msatList) * 127) && (r.SectorSize == 4096 ==> len(r.MSAT) <= 109 + len(r.msatList) * 1023)
 
@@ -240,14 +249,143 @@ package comdoc
 //@   standalone
 //@   nopanic
 //@   requires (r.SectorSize == 512 || r.SectorSize == 4096) && r.Header != nil && len(r.SAT) <= 1073741824 && len(r.SSAT) <= 1073741824 && !samearr(r.SAT, r.SSAT)
+//@   ensures @geometry_untouched r.SectorSize == old(r.SectorSize) && r.Header == old(r.Header) && r.writer == old(r.writer)
 //@   before call (*ComDoc).makeFreeSectors(_, n, sh): assert @one_big_sector_per_block_of_the_short_table n == len(r.SSAT) / (r.SectorSize / 4) && !sh
 //@   loop 0 sig "for i, sector := range freeList" invariant -1 <= rangeindex && rangeindex < len(freeList) && perSector == r.SectorSize / 4 && (r.SectorSize == 512 || r.SectorSize == 4096) && \
 //@        len(freeList) == len(r.SSAT) / perSector && len(r.SSAT) <= 1073741824 && r.Header != nil && buf != nil && \
 //@        forall(k, 0, len(freeList), 0 <= freeList[k] && freeList[k] < len(r.SAT)) && (len(freeList) > 0 ==> !samearr(freeList, r.SAT)) && \
 //@        (rangeindex == -1 ==> previous == -2 && first == -2) && (rangeindex >= 0 ==> previous == freeList[rangeindex] && first == freeList[0])
+//@   before call (*ComDoc).writeSector(x, sec, b): assert @block_i_of_the_short_table_fills_the_i_th_allocated_sector x == r && sec == freeList[rangeindex] && len(b) == r.SectorSize
+//@   before call freeSectors(tbl, first): assert @old_table_chain_is_released_in_the_big_table sameslice(tbl, r.SAT) && first == r.Header.SSATNextSector
+//@   loop 0 invariant @allocated_sectors_distinct forall(a, 0, len(freeList), forall(b, a + 1, len(freeList), freeList[a] < freeList[b]))
+//@   loop 0 invariant @chain_links_so_far forall(k, 0, rangeindex, r.SAT[freeList[k]] == freeList[k+1])
+//@   ensures @table_chain_links_every_allocated_sector_in_order_and_ends ret0 == nil && len(fl) > 0 ==> forall(k, 0, len(fl) - 1, r.SAT[fl[k]] == fl[k+1]) && r.SAT[fl[len(fl)-1]] == -2
 //@   ensures @header_count_is_the_number_of_sectors_the_short_table_needs ret0 == nil ==> r.Header.SSATSectorCount == len(r.SSAT) / (r.SectorSize / 4)
 //@   ensures @an_empty_short_table_has_no_chain ret0 == nil && len(r.SSAT) / (r.SectorSize / 4) == 0 ==> r.Header.SSATNextSector == -2
 //@   ghost fl []SecID = nil
 //@   on call (*ComDoc).makeFreeSectors(_, _, _) ret (l): fl = l
 //@   ensures @table_chain_starts_at_the_first_allocated_sector ret0 == nil && len(fl) > 0 ==> r.Header.SSATNextSector == fl[0]
 //@   ensures @first_sector_of_the_table_chain_is_in_the_big_table ret0 == nil && len(r.SSAT) / (r.SectorSize / 4) > 0 ==> 0 <= r.Header.SSATNextSector && r.Header.SSATNextSector < len(r.SAT)
+//@
+//@ extern (*ComDoc).rebuildTree(r, parent, files)
+//@   modifies mem(r.Files)
+//@
+//@ func (*ComDoc).writeDirStream
+//@   property C18 C11
+//@   standalone
+//@   nopanic
+//@   requires (r.SectorSize == 512 || r.SectorSize == 4096) && r.Header != nil && len(r.SAT) <= 1073741824 && len(r.Files) <= 1073741824 && !samearr(r.SAT, r.SSAT)
+//@   requires @directory_is_a_whole_number_of_sectors_and_holds_the_root_entry len(r.Files) > 0 && len(r.Files) % (r.SectorSize / 128) == 0
+//@   allocbound 0 2 * r.SectorSize
+//@   ensures @geometry_untouched r.SectorSize == old(r.SectorSize) && r.Header == old(r.Header) && r.writer == old(r.writer)
+//@   before call (*ComDoc).makeFreeSectors(_, n, sh): assert @one_big_sector_per_block_of_directory_entries n == len(r.Files) / (r.SectorSize / 128) && !sh
+//@   before call (*ComDoc).writeSector(x, sec, b): assert @block_i_of_the_directory_fills_the_i_th_allocated_sector x == r && sec == freeList[rangeindex] && len(b) == r.SectorSize
+//@   before call freeSectors(tbl, first): assert @old_directory_chain_is_released_in_the_big_table sameslice(tbl, r.SAT) && first == r.Header.DirNextSector
+//@   ghost fl []SecID = nil
+//@   on call (*ComDoc).makeFreeSectors(_, _, _) ret (l): fl = l
+//@   loop 0 sig "for i, sector := range freeList" invariant -1 <= rangeindex && rangeindex < len(freeList) && perSector == r.SectorSize / 128 && (r.SectorSize == 512 || r.SectorSize == 4096) && \
+//@        len(freeList) == len(r.Files) / perSector && len(r.Files) <= 1073741824 && len(r.Files) > 0 && len(r.Files) % perSector == 0 && r.Header != nil && buf != nil && len(chunk) == perSector && allocated(chunk) && \
+//@        sameslice(fl, freeList) && forall(k, 0, len(freeList), 0 <= freeList[k] && freeList[k] < len(r.SAT)) && (len(freeList) > 0 ==> !samearr(freeList, r.SAT)) && \
+//@        (rangeindex == -1 ==> previous == -2 && first == -2) && (rangeindex >= 0 ==> previous == freeList[rangeindex] && first == freeList[0])
+//@   loop 1 sig "for k, f := range r.Files[j : j+perSector]" invariant -1 <= rangeindex && len(chunk) == perSector && allocated(chunk)
+//@   loop 0 invariant @allocated_sectors_distinct forall(a, 0, len(freeList), forall(b, a + 1, len(freeList), freeList[a] < freeList[b]))
+//@   loop 0 invariant @chain_links_so_far forall(k, 0, rangeindex, r.SAT[freeList[k]] == freeList[k+1])
+//@   ensures @directory_chain_links_every_allocated_sector_in_order_and_ends ret0 == nil ==> forall(k, 0, len(fl) - 1, r.SAT[fl[k]] == fl[k+1]) && r.SAT[fl[len(fl)-1]] == -2
+//@   ensures @directory_chain_starts_at_the_first_allocated_sector ret0 == nil ==> len(fl) > 0 && r.Header.DirNextSector == fl[0] && 0 <= r.Header.DirNextSector && r.Header.DirNextSector < len(r.SAT)
+//@   ensures @version_4_header_counts_the_directory_sectors ret0 == nil && r.Header.Version >= 4 ==> r.Header.DirSectorCount == len(r.Files) / (r.SectorSize / 128)
+//@
+//@ extern (*ComDoc).writeShortSAT(r)
+//@   ensures r.SectorSize == old(r.SectorSize) && r.Header == old(r.Header) && r.writer == old(r.writer)
+//@ extern (*ComDoc).writeDirStream(r)
+//@   ensures r.SectorSize == old(r.SectorSize) && r.Header == old(r.Header) && r.writer == old(r.writer)
+//@ extern (*ComDoc).writeSAT(r)
+//@   ensures r.SectorSize == old(r.SectorSize) && r.Header == old(r.Header) && r.writer == old(r.writer)
+//@   ensures sameslice(r.MSAT, old(r.MSAT)) && sameslice(r.msatList, old(r.msatList))
+//@ extern (*ComDoc).writeMSAT(r)
+//@   ensures r.SectorSize == old(r.SectorSize) && r.Header == old(r.Header) && r.writer == old(r.writer)
+//@   ensures sameslice(r.MSAT, old(r.MSAT)) && sameslice(r.msatList, old(r.msatList))
+//@
+//@ extern (*ComDoc).Close(r)
+//@
+//@ func (*ComDoc).Close
+//@   property C18 C03
+//@   standalone
+//@   requires (r.SectorSize == 512 || r.SectorSize == 4096) && r.Header != nil && (r.changed ==> r.writer != nil)
+//@   ghost stage int = 0
+//@   before call (*ComDoc).writeShortSAT(x): assert @short_table_first x == r && stage == 0
+//@   on call (*ComDoc).writeShortSAT(_) ret (e): stage = ite(e == nil, 1, -1)
+//@   before call (*ComDoc).writeDirStream(x): assert @directory_after_the_short_table x == r && stage == 1
+//@   on call (*ComDoc).writeDirStream(_) ret (e): stage = ite(e == nil, 2, -1)
+//@   before call (*ComDoc).allocSectorTables(x): assert @table_sectors_are_allocated_after_every_stream_has_its_sectors x == r && stage == 2
+//@   on call (*ComDoc).allocSectorTables(_): stage = 3
+//@   before call (*ComDoc).writeSAT(x): assert @big_table_written_after_the_last_allocation x == r && stage == 3
+//@   on call (*ComDoc).writeSAT(_) ret (e): stage = ite(e == nil, 4, -1)
+//@   before call (*ComDoc).writeMSAT(x): assert @master_table_after_the_big_table_with_a_slot_for_every_listed_sector x == r && stage == 4 && len(r.MSAT) <= 109 + len(r.msatList) * (r.SectorSize / 4 - 1)
+//@   on call (*ComDoc).writeMSAT(_) ret (e): stage = ite(e == nil, 5, -1)
+//@   before call (*os.File).WriteAt(w, b, off): assert @header_written_last_with_counts_that_agree_with_the_tables stage == 5 && off == 0 && \
+//@        r.Header.SATSectors == len(r.MSAT) % 4294967296 && r.Header.MSATSectorCount == len(r.msatList) % 4294967296 && r.Header.ByteOrder == 65534
+//@   on call (*os.File).WriteAt(_, _, _) ret (n, e): stage = ite(e == nil, 6, -1)
+//@   loop 0 sig "for i := len(r.SAT) - 1; i >= 0; i--" invariant i < len(r.SAT) && stage == 6 && forall(k, i + 1, len(r.SAT), r.SAT[k] == -1)
+//@   before call (*os.File).Truncate(_, n): assert @file_ends_behind_the_last_sector_in_use stage == 6 && 0 <= i && i < len(r.SAT) && r.SAT[i] != -1 && \
+//@        forall(k, i + 1, len(r.SAT), r.SAT[k] == -1) && (i < 2147483647 ==> n == wrap64(r.FirstSector + mulwrap64((i + 1) * r.SectorSize)))
+//@   ensures @a_changed_document_is_complete_only_after_the_header_was_written ret0 == nil && old(r.changed) ==> stage == 6
+//@
+//@ func (*ComDoc).writeSAT
+//@   property C18 C03
+//@   standalone
+//@   requires (r.SectorSize == 512 || r.SectorSize == 4096)
+//@   loop 0 sig "for i, sector := range r.MSAT" invariant -1 <= rangeindex && satPerSector == r.SectorSize / 4 && (r.SectorSize == 512 || r.SectorSize == 4096) && buf != nil && \
+//@        r.SectorSize == old(r.SectorSize) && r.Header == old(r.Header) && r.writer == old(r.writer) && sameslice(r.MSAT, old(r.MSAT)) && sameslice(r.msatList, old(r.msatList))
+//@   before call (*ComDoc).writeSector(x, s, b): assert @block_i_of_the_table_goes_to_the_i_th_listed_sector x == r && s == r.MSAT[rangeindex] && len(b) == r.SectorSize
+//@   ensures @geometry_and_sector_lists_untouched r.SectorSize == old(r.SectorSize) && r.Header == old(r.Header) && r.writer == old(r.writer) && sameslice(r.MSAT, old(r.MSAT)) && sameslice(r.msatList, old(r.msatList))
+//@
+//@ func (*ComDoc).writeMSAT
+//@   property C18 C11
+//@   standalone
+//@   nopanic
+//@   requires (r.SectorSize == 512 || r.SectorSize == 4096) && r.Header != nil && len(r.msatList) <= 1048576
+//@   requires @every_listed_table_sector_has_a_slot len(r.MSAT) <= 109 + len(r.msatList) * (r.SectorSize / 4 - 1)
+//@   allocbound 0 4 * (109 + len(r.msatList) * (r.SectorSize / 4))
+//@   allocbound 1 r.SectorSize
+//@   loop 0 sig "for i := len(r.MSAT); i < msatCount; i++" invariant len(old(r.MSAT)) <= i && len(msat) == msatCount && allocated(msat) && \
+//@        forall(k, 0, len(r.MSAT), msat[k] == r.MSAT[k]) && forall(k, len(r.MSAT), min(i, msatCount), msat[k] == -1)
+//@   loop 1 sig "for i, sector := range r.msatList" invariant -1 <= rangeindex && (r.SectorSize == 512 || r.SectorSize == 4096) && satPerSector == r.SectorSize / 4 && msatPerSector == satPerSector - 1 && \
+//@        len(msat) == len(r.msatList) * msatPerSector && len(chunk) == satPerSector && allocated(chunk) && buf != nil && r.Header != nil && \
+//@        r.SectorSize == old(r.SectorSize) && r.Header == old(r.Header) && r.writer == old(r.writer) && sameslice(r.MSAT, old(r.MSAT)) && sameslice(r.msatList, old(r.msatList))
+//@   loop 1 invariant @header_part_already_in_place forall(k, 0, 109, r.Header.MSAT[k] == ite(k < len(r.MSAT), r.MSAT[k], -1))
+//@   before call (*ComDoc).writeSector(x, sec, b): assert @each_master_table_sector_ends_with_the_id_of_the_next_one x == r && sec == r.msatList[rangeindex] && len(b) == r.SectorSize && \
+//@        chunk[msatPerSector] == ite(rangeindex < len(r.msatList) - 1, r.msatList[rangeindex + 1], -2)
+//@   ensures @header_points_at_the_first_master_table_sector ret0 == nil ==> r.Header.MSATNextSector == ite(len(r.msatList) > 0, r.msatList[0], -2)
+//@   ensures @first_109_entries_are_in_the_header_unused_slots_free ret0 == nil ==> forall(k, 0, 109, r.Header.MSAT[k] == ite(k < len(r.MSAT), r.MSAT[k], -1))
+//@   ensures @geometry_and_sector_lists_untouched r.SectorSize == old(r.SectorSize) && r.Header == old(r.Header) && r.writer == old(r.writer) && sameslice(r.MSAT, old(r.MSAT)) && sameslice(r.msatList, old(r.msatList))
+//@
+//@ macro direntKept(a DirEnt, b DirEnt) bool = a.Type == b.Type && a.NextSector == b.NextSector && a.StreamSize == b.StreamSize && a.name == b.name && a.Index == b.Index && \
+//@        a.NameLength == b.NameLength && a.NameRunes == b.NameRunes && a.UID == b.UID && a.UserFlags == b.UserFlags && a.CreateTime == b.CreateTime && a.ModifyTime == b.ModifyTime && \
+//@        a.LeftChild == b.LeftChild && a.RightChild == b.RightChild && a.StorageRoot == b.StorageRoot && a.Color == b.Color
+//@
+//@ func (*ComDoc).appendDirEnt
+//@   property C18 C03
+//@   nopanic
+//@   requires (r.SectorSize == 512 || r.SectorSize == 4096) && dirent != nil && len(r.Files) <= 1073741824
+//@   allocbound 0 4 * r.SectorSize
+//@   modifies r.Files, mem(r.Files)
+//@   loop 0 sig "for i, j := range r.Files" invariant -1 <= rangeindex && index == -1 && forall(k, 0, rangeindex + 1, r.Files[k].Type != 0) && sameslice(r.Files, old(r.Files))
+//@   ensures @new_entry_takes_the_first_empty_slot_or_a_new_block ret0 != nil && 0 <= ret0.Index && ret0.Index < len(r.Files) && ret0 == addr(r.Files[ret0.Index]) && \
+//@        ret0.Index <= old(len(r.Files)) && forall(k, 0, ret0.Index, old(r.Files[k].Type) != 0) && forall(k, 0, old(len(r.Files)), k == ret0.Index ==> old(r.Files[k].Type) == 0)
+//@   ensures @directory_grows_by_whole_sectors_only len(r.Files) == old(len(r.Files)) || (ret0.Index == old(len(r.Files)) && len(r.Files) == old(len(r.Files)) + r.SectorSize / 128)
+//@   ensures @entry_is_the_one_given_with_its_index_filled_in ret0.Type == old(dirent.Type) && ret0.NextSector == old(dirent.NextSector) && ret0.StreamSize == old(dirent.StreamSize) && ret0.name == old(dirent.name) && \
+//@        ret0.NameLength == old(dirent.NameLength) && ret0.NameRunes == old(dirent.NameRunes) && ret0.LeftChild == old(dirent.LeftChild) && ret0.RightChild == old(dirent.RightChild) && ret0.StorageRoot == old(dirent.StorageRoot)
+//@   ensures @every_other_entry_is_untouched forall(k, 0, old(len(r.Files)), k != ret0.Index ==> direntKept(r.Files[k], old(r.Files[k])))
+//@   ensures @slots_of_a_new_block_are_empty forall(k, old(len(r.Files)), len(r.Files), k != ret0.Index ==> r.Files[k].Type == 0)
+//@
+//@ func (*ComDoc).newDirEnt
+//@   property C18 C03
+//@   nopanic
+//@   requires (r.SectorSize == 512 || r.SectorSize == 4096) && len(r.Files) <= 1073741824
+//@   modifies r.Files, mem(r.Files)
+//@   ensures @a_stream_entry_that_describes_the_stored_stream ret1 == nil ==> ret0 != nil && 0 <= ret0.Index && ret0.Index < len(r.Files) && ret0 == addr(r.Files[ret0.Index]) && \
+//@        ret0.Type == DirStream && ret0.StreamSize == size && ret0.NextSector == sector && ret0.name == name && ret0.LeftChild == -1 && ret0.RightChild == -1 && ret0.StorageRoot == -1 && \
+//@        2 <= ret0.NameLength && ret0.NameLength <= 64 && ret0.NameLength % 2 == 0
+//@   ensures @every_other_entry_is_untouched ret1 == nil ==> forall(k, 0, old(len(r.Files)), k != ret0.Index ==> direntKept(r.Files[k], old(r.Files[k])))
+//@   ensures @nothing_changes_when_the_name_is_refused ret1 != nil ==> sameslice(r.Files, old(r.Files)) && forall(k, 0, len(r.Files), direntKept(r.Files[k], old(r.Files[k])))
+//@   ensures @only_an_empty_slot_or_a_new_block_is_used ret1 == nil ==> ret0.Index <= old(len(r.Files)) && forall(k, 0, old(len(r.Files)), k == ret0.Index ==> old(r.Files[k].Type) == 0)
